@@ -246,6 +246,8 @@ fn rotate(
     };
 
     for i in (base..base + count - 1).rev() {
+        #[cfg(log4rs_verif)]
+        crate::verif_hooks::rotate_step()?;
         let src = expand_env_vars(pattern.replace("{}", &i.to_string()));
         let dst = expand_env_vars(pattern.replace("{}", &(i + 1).to_string()));
 
@@ -258,6 +260,8 @@ fn rotate(
         move_file(src.as_ref(), dst.as_ref())?;
     }
 
+    #[cfg(log4rs_verif)]
+    crate::verif_hooks::rotate_step()?;
     compression.compress(&file, &dst_0).map_err(|e| {
         println!("err compressing: {:?}, dst: {:?}", file, dst_0);
         e
